@@ -375,7 +375,7 @@ type signed struct {
 }
 
 // signDeadline bounds every call of the real Sign (a parser goroutine that stops reading would block it for ever)
-const signDeadline = 3 * time.Second
+const signDeadline = 10 * time.Second
 
 // realSign: signdeb.Sign on the real code under a deadline; res is "" on success, "timeout" when Sign does not return
 func realSign(f []byte, role string, hash ...crypto.Hash) (*signed, string) {
